@@ -11,7 +11,9 @@ import pvlib
 from pvlib import Check, run_tlc, run_cases, payloads, ndjson
 
 SIZES = [1, 2, 1023, 1024, 1025, 2047, 2048, 2049, 5000]
-CHUNKS = [[1], [2], [3, 5], [7], [64], [1023], [1024], [1025], [2047], [2048, 1], [4096], [1, 2047]]
+CHUNKS = [[1], [2], [3, 5], [7], [64], [1023], [1024], [1025], [2047], [2048, 1], [4096], [1, 2047],
+          # readers that use what io.Reader allows: the last bytes arrive together with io.EOF (0), reads that return nothing (-1)
+          [0], [0, 7], [0, 2048], [0, 100000], [-1, 3], [-1, 0, 1024], [-1, 1]]
 LAYOUT = ("RET", "MULTILINE_ADD_CHAIN", "MULTILINE_MAIN_CHAIN")
 
 
